@@ -308,8 +308,8 @@ def est_specs():
     S.append(lazy_fn_spec("mrp.predict", lambda: mrp.predict(), only=("x1",), selects=True))
     S.append(lazy_fn_spec("mrp.correct_mag", lambda: mrp.correct_mag(), cuts=("error_code",), selects=True))
     S.append(lazy_fn_spec("mrp.correct_accel", lambda: mrp.correct_accel(), cuts=("error_code",), selects=True))
-    S.append(qr_abstracted("mrp.correct_mag_qr", lambda: mrp.correct_mag(), 7, only=("W_mag", "qr_arg", "error_code"), cuts=("error_code",), selects=True))
-    S.append(qr_abstracted("mrp.correct_accel_qr", lambda: mrp.correct_accel(), 8, only=("W_accel", "qr_arg", "error_code"), cuts=("error_code",), selects=True))
+    S.append(qr_abstracted("mrp.correct_mag_qr", lambda: mrp.correct_mag(), 7, only=("x_mag", "W_mag", "r_mag", "qr_arg", "error_code"), cuts=("error_code", "r_mag"), selects=True))
+    S.append(qr_abstracted("mrp.correct_accel_qr", lambda: mrp.correct_accel(), 8, only=("x_accel", "W_accel", "r_accel", "qr_arg", "error_code"), cuts=("error_code", "r_accel"), selects=True))
     S.append(lazy_fn_spec("mrp.get_state", lambda: mrp.get_state()))
     S.append(lazy_fn_spec("sim.simulate", lambda: sim.simulate(), selects=True))
     S.append(lazy_fn_spec("sim.measure_gyro", lambda: sim.measure_gyro()))
